@@ -64,6 +64,8 @@ def i_type(*a):
         return bytes
     if isinstance(x, (SymStr, SymChar, ZStr)):
         return str
+    if getattr(type(x), "__sx_virtual_type__", None) is not None:
+        return type(x).__sx_virtual_type__
     return NotImplemented
 
 
@@ -76,7 +78,7 @@ def _virtual_type(x):
     for c, t in _KIND:
         if isinstance(x, c):
             return t
-    return None
+    return getattr(type(x), "__sx_virtual_type__", None)
 
 
 @intrinsic(isinstance)
@@ -196,6 +198,24 @@ def i_int(*a, **k):
             return v
         # signs, blanks, underscores and non-ASCII digits make other strings valid numerals as well: only the plain case is modelled
         raise Unsupported("int() of a string that is not all ASCII digits")
+    if isinstance(x, (SymStr, SymSeq)) and len(a) == 2 and a[1] == 16 and not k:
+        cs = x.codes() if isinstance(x, SymStr) else list(x.items)
+        if not cs or any(isinstance(c, Piece) for c in cs):
+            raise Unsupported("int(<abstract>, 16)")
+        C = core.CTX
+        v = 0
+        for c in cs:
+            if isinstance(c, int):
+                n = int(chr(c), 16)
+            elif getattr(c, "nib", None) is not None:
+                n = c.nib
+            else:
+                c = toint(c)
+                if not C.branch(z3.Or(z3.And(c >= 48, c <= 57), z3.And(c >= 65, c <= 70), z3.And(c >= 97, c <= 102))):
+                    raise Unsupported("int(s, 16) of a string that is not all hex digits")
+                n = SymInt(S(z3.If(c <= 57, c - 48, z3.If(c <= 70, c - 55, c - 87))), ub=16)
+            v = v * 16 + n
+        return v
     if isinstance(x, (SymStr, SymChar)):
         raise Unsupported("int(SymStr, base)")
     return NotImplemented
@@ -261,7 +281,9 @@ def i_format(x, spec=""):
                 out = []
                 for i in range(k - 1, -1, -1):
                     d = ds[i]
-                    out.append(SymChar(SymInt(S(z3.If(d < 10, d + 48, d + 87)), ub=128)))
+                    code = SymInt(S(z3.If(d < 10, d + 48, d + 87)), ub=128)
+                    code.nib = SymInt(d, ub=16)
+                    out.append(SymChar(code))
                 return SymStr(out)
         raise Unsupported("format(symbolic >= 2^64, 'x')")
     if isinstance(x, Sym):
@@ -350,7 +372,9 @@ def i_hexlify(x, *a):
                 raise Unsupported("hexlify of abstract piece")
             for nib in ((b >> 4) & 15, b & 15):
                 if isinstance(nib, SymInt):
-                    out.append(SymInt(S(z3.If(nib.t < 10, nib.t + 48, nib.t + 87)), ub=256))
+                    ch = SymInt(S(z3.If(nib.t < 10, nib.t + 48, nib.t + 87)), ub=256)
+                    ch.nib = nib
+                    out.append(ch)
                 else:
                     out.append(ord("0123456789abcdef"[nib]))
         return SymSeq(out, "bytes")
@@ -368,6 +392,8 @@ def i_unhexlify(x):
         def nib(c):
             if isinstance(c, int):
                 return int(chr(c), 16)
+            if getattr(c, "nib", None) is not None:
+                return c.nib                   # the character was rendered from this digit: decoding it gives the digit back
             c = toint(c)
             C = core.CTX
             ok = z3.Or(z3.And(c >= 48, c <= 57), z3.And(c >= 65, c <= 70), z3.And(c >= 97, c <= 102))
